@@ -392,13 +392,14 @@ Definition loc_is_orf (direction offset n : Z) (rl : option Z) (c : Z * Z) (l : 
   forallb (fun p => pst p =? direction) l && zl_eqb (positions l) (expected_positions direction offset n rl c).
 
 Definition b2z (b : bool) : Z := if b then 1 else 0.
+(* every ORF of the three frames of the upper-cased text, in window coordinates (first base, last base), by the
+   position-only specification orfs_spec - no length filter *)
+Definition text_orfs (useq : list Z) : list (Z * Z) :=
+  flat_map (fun frame => map (orf_coords (Z.of_nat frame)) (orfs_spec (kinds (skipn frame useq))))
+           [0%nat; 1%nat; 2%nat].
 (* [spec_ok (minimum as in the property text: length >= minimum); guard (no ORF of exactly the
    minimum length in the window); spec_ok with length > minimum (what the code does)] *)
-Definition spec_scan (sequ : list Z) (direction offset minimum : Z) (rl : option Z) (out : list loc) : list Z :=
-  let useq := map upper sequ in
-  let n := zlen useq in
-  let all := flat_map (fun frame => map (orf_coords (Z.of_nat frame)) (orfs_spec (kinds (skipn frame useq))))
-                      [0%nat; 1%nat; 2%nat] in
+Definition spec_scan_on (all : list (Z * Z)) (n direction offset minimum : Z) (rl : option Z) (out : list loc) : list Z :=
   let want_ge := filter (fun c => minimum <=? snd c - fst c + 1) all in
   let want_gt := filter (fun c => minimum <? snd c - fst c + 1) all in
   let matches (want : list (Z * Z)) :=
@@ -407,6 +408,52 @@ Definition spec_scan (sequ : list Z) (direction offset minimum : Z) (rl : option
     forallb (fun l => existsb (fun c => loc_is_orf direction offset n rl c l) want) out in
   let sorted := sorted_le (map loc_key out) in
   [b2z (sorted && matches want_ge); b2z (length want_ge =? length want_gt)%nat; b2z (sorted && matches want_gt)].
+Definition spec_scan (sequ : list Z) (direction offset minimum : Z) (rl : option Z) (out : list loc) : list Z :=
+  let useq := map upper sequ in
+  spec_scan_on (text_orfs useq) (zlen useq) direction offset minimum rl out.
+
+(* ---------- scan_orfs on a window of a circular record, whatever way the window's position is told ---------- *)
+(* the text of the window of [len] bases of the ring [g] that begins at position [off]: ANY integer offset - negative
+   (the window starts |off| bases before the origin, the way find_all_orfs tells it), zero, positive with the window
+   running past the record end (the window told by its real start coordinate), beyond the record length *)
+Definition ring_text (g : list Z) (off len : Z) : list Z :=
+  map (fun i => nth (Z.to_nat ((off + i) mod zlen g)) g 0) (zrange 0 len).
+(* the text handed to scan_orfs for a strand *)
+Definition ring_window (g : list Z) (off len direction : Z) : list Z :=
+  if direction =? -1 then revcomp (ring_text g off len) else ring_text g off len.
+
+(* "every reported location lies inside [0, record_length) and has at most two parts, split at the origin": one
+   non-empty part inside the record, or the two parts [a, n) [0, b) with b <= a, in the order of transcription
+   (reverse strand: [0, b) first), all on the scanned strand *)
+Definition ring_shape_ok (n direction : Z) (l : loc) : bool :=
+  match l with
+  | [p] => (0 <=? ps p) && (ps p <? pe p) && (pe p <=? n) && (pst p =? direction)
+  | [p; q] =>
+    (pst p =? direction) && (pst q =? direction) &&
+    (if direction =? -1
+     then (ps p =? 0) && (0 <? pe p) && (pe p <=? ps q) && (ps q <? n) && (pe q =? n)
+     else (ps q =? 0) && (0 <? pe q) && (pe q <=? ps p) && (ps p <? n) && (pe p =? n))
+  | _ => false
+  end.
+(* "extracting it from the record gives an ORF": whole codons, the first a start codon, the last a stop codon, no stop
+   codon before it (is_orf_b on the codons of the text itself) *)
+Definition orf_text_b (t : list Z) : bool :=
+  let ks := kinds (map upper t) in
+  (Z.of_nat (length t) mod 3 =? 0) && is_orf_b ks 0 (length ks - 1).
+
+(* the specification of scan_orfs on a window of a circular record, evaluated on the implementation's output:
+   the three verdicts of spec_scan followed by
+   [every location has the ring shape; every location extracts from the record to an ORF text; every location extracts
+    to the text of one of the ORFs of the window; the text handed to scan_orfs is the window of the record at this offset
+    (a check of the generator, not of the implementation)] *)
+Definition spec_scan_ring (g sequ : list Z) (direction offset minimum : Z) (out : list loc) : list Z :=
+  let useq := map upper sequ in
+  let all := text_orfs useq in
+  spec_scan_on all (zlen useq) direction offset minimum (Some (zlen g)) out ++
+  [b2z (forallb (ring_shape_ok (zlen g) direction) out);
+   b2z (forallb (fun l => orf_text_b (extract g l)) out);
+   b2z (forallb (fun l => existsb (fun c => zl_eqb (extract g l) (slice sequ (fst c) (snd c + 1))) all) out);
+   b2z (zl_eqb sequ (ring_window g offset (zlen sequ) direction))].
 
 (* ---------- decidable specification of the gap clause (C15_gaps), evaluated on find_all_orfs outputs ---------- *)
 (* number of record positions of the location [o] that lie inside the gene [c] *)
@@ -505,6 +552,10 @@ Definition run_C15 (fn : Z) (l : list Z) : list Z :=
          | _ => bad_input end
   | 12 => match dPair (dPair (dPair (dList dZ) (dList dLoc)) (dPair (dOpt dLoc) (dPair dZ dZ))) (dList dFeature) l with
           | Some (((g, cds, (area, (ml, ov))), out), []) => spec_gaps g cds area ml ov out
+          | _ => bad_input end
+  | 13 => match dPair (dList dZ) (dPair dScan (dList dLoc)) l with
+          | Some ((g, ((sequ, (direction, offset), (minimum, Some n)), out)), []) =>
+            if n =? zlen g then spec_scan_ring g sequ direction offset minimum out else bad_input
           | _ => bad_input end
   | 11 => match dPair dScan (dList dLoc) l with
           | Some (((sequ, (direction, offset), (minimum, rl)), out), []) =>
